@@ -355,11 +355,13 @@ pub struct BmpRouter {
     pub peers: Vec<BmpPeer>,
 }
 #[derive(Clone, Debug)]
-pub struct BmpPeer { pub addr: Ipv4Addr, pub asn: u32, pub bgp_id: [u8; 4], pub flags: u8, pub distinguisher: [u8; 8], pub peer_type: u8, pub up: bool }
+pub struct BmpPeer { pub addr: Ipv4Addr, pub asn: u32, pub bgp_id: [u8; 4], pub flags: u8, pub distinguisher: [u8; 8], pub peer_type: u8, pub up: bool,
+    /// the peer's OPEN carries the Graceful Restart capability (the state machine then expects End-of-RIB markers)
+    pub gr: bool }
 
 impl BmpPeer {
     pub fn plain(i: u32) -> BmpPeer {
-        BmpPeer { addr: Ipv4Addr::new(198, 51, 100, 1 + i as u8), asn: 65000 + i, bgp_id: [1, 1, 1, 1 + i as u8], flags: 0, distinguisher: [0; 8], peer_type: 0, up: false }
+        BmpPeer { addr: Ipv4Addr::new(198, 51, 100, 1 + i as u8), asn: 65000 + i, bgp_id: [1, 1, 1, 1 + i as u8], flags: 0, distinguisher: [0; 8], peer_type: 0, up: false, gr: false }
     }
     pub fn pph(&self) -> PerPeerHeader {
         let pt = match self.peer_type { 1 => PeerType::RdInstance, 2 => PeerType::LocalInstance, _ => PeerType::GlobalInstance };
@@ -383,7 +385,7 @@ impl BmpRouter {
         }
     }
     pub fn peer_up_msg(p: &BmpPeer) -> Bytes {
-        mk_peer_up_notification_msg(&p.pph(), "10.0.0.1".parse().unwrap(), 11019, 4567, 12345, (p.asn & 0xFFFF) as u16, 0x0A000001, u32::from_be_bytes(p.bgp_id), vec![], false)
+        mk_peer_up_notification_msg(&p.pph(), "10.0.0.1".parse().unwrap(), 11019, 4567, 12345, (p.asn & 0xFFFF) as u16, 0x0A000001, u32::from_be_bytes(p.bgp_id), vec![], p.gr)
     }
     /// Peer Up; returns the ingress id the real state machine stored for it.
     pub fn peer_up(&mut self, idx: usize) -> Option<u32> {
